@@ -193,7 +193,9 @@ def tunnel_events(ctx, rng):
              ("alice.smith@corp.example.com", "token-" + "x" * 60), ("u" * 57, "p"), ("u" * 200, "p" * 200)]
     origins = [("origin.test", 0), ("origin.test", 8080), ("10.1.2.3", 81), ("origin.test", 443)]
     import logging
-    for reply, auth, (oh, oport), via, tr in itertools.product(replies, auths, origins, ("option", "env"), (False, True)):
+    for reply, auth, (oh, oport), via, tr, entry in itertools.product(replies, auths, origins, ("option", "env"), (False, True), ("WebSocket", "App")):
+        if entry == "App" and (reply not in (403, 407) or tr or oport not in (0, 8080) or (auth and len(auth[0]) > 10)):
+            continue          # the same through WebSocketApp.run_forever (refusing proxies only: the run ends with the CONNECT reply)
         if tr and (auth is None or reply not in (200, 407) or oport not in (0, 81)):
             continue          # debug tracing on: a sample (what is logged must not change what is sent)
         if auth and len(auth[0]) > 50 and (reply not in (200, 403) or oport not in (0, 8080)):
@@ -205,6 +207,8 @@ def tunnel_events(ctx, rng):
             peers.append(p)
             return p
         w = World(resolver={"*": ["10.8.8.8"]}, peer_factory=factory)
+        if entry == "WebSocket" and not tr and oport == 81:
+            w.write_cap = 16          # a transport that takes 16 bytes per write: CONNECT and the handshake still arrive whole
         url = "ws://%s%s/tun" % (oh, ":%d" % oport if oport else "")
         kw = {}
         env = {}
@@ -214,8 +218,9 @@ def tunnel_events(ctx, rng):
                 kw["http_proxy_auth"] = auth
         else:
             if auth and auth[1] is None:
-                continue
-            cred = "%s:%s@" % (auth[0].replace(" ", "%20").replace("@", "%40"), auth[1].replace(":", "%3A")) if auth else ""
+                cred = auth[0] + "@"          # user name without password
+            else:
+                cred = "%s:%s@" % (auth[0].replace(" ", "%20").replace("@", "%40"), auth[1].replace(":", "%3A")) if auth else ""
             env = {"http_proxy": "http://%sproxy.test:3128" % cred}
         exc = None
         lg = logging.getLogger("websocket")
@@ -224,12 +229,21 @@ def tunnel_events(ctx, rng):
             websocket.enableTrace(True, handler=logging.NullHandler(), level="DEBUG")
         try:
             with clean_env(**env), w:
-                ws = websocket.WebSocket()
-                ws.settimeout(2)
-                try:
-                    ws.connect(url, **kw)
-                except Exception as e:
-                    exc = e
+                if entry == "App":
+                    errs = []
+                    app = websocket.WebSocketApp(url, on_error=lambda a, e: errs.append(e))
+                    try:
+                        app.run_forever(**kw)
+                    except Exception as e:      # noqa
+                        errs.append(e)
+                    exc = errs[0] if errs else None
+                else:
+                    ws = websocket.WebSocket()
+                    ws.settimeout(2)
+                    try:
+                        ws.connect(url, **kw)
+                    except Exception as e:
+                        exc = e
         finally:
             if tr:
                 websocket.enableTrace(False, handler=logging.NullHandler())
@@ -263,7 +277,7 @@ def tunnel_events(ctx, rng):
                    "wsHost": wshost, "expectWsHost": oh if eport in (80, 443) else "%s:%d" % (oh, eport),
                    "raisedProxy": isinstance(exc, WebSocketProxyException), "closed": bool(p and p.sock.closed),
                    "dialHost": res[0]["host"] if res else "", "dialPort": res[0]["port"] if res else 0,
-                   "proxyHost": "proxy.test", "proxyPort": 3128, "via": via, "exc": type(exc).__name__ if exc else "", "trace": tr})
+                   "proxyHost": "proxy.test", "proxyPort": 3128, "via": via, "exc": type(exc).__name__ if exc else "", "trace": tr, "entry": entry})
     return ev
 
 
